@@ -208,6 +208,27 @@ func (p *c04) RunCase(ctx *runner.Ctx) runner.CaseResult {
 			}
 			x.r.Counters["walks"]++
 			x.r.Counters["pages"] += w.pages
+			if adapter == "v2" && (L <= 3 || L == n || r.Intn(6) == 0) {
+				// the same walk done by the SDK's own paginator (dynamodb.NewQueryPaginator / NewScanPaginator), the
+				// way most callers page: it stops when a page carries no LastEvaluatedKey (or repeats the last one)
+				pop := rq.op
+				pop.Limit, pop.Paginate, pop.MaxPages = L, true, maxPages
+				po := cl.Do(pop)
+				x.r.Evals++
+				x.r.Counters["sdk_paginator_walks"]++
+				switch {
+				case po.Class != adapt.ClsOK:
+					x.viol("page-protocol", "sdk-paginator/"+rq.op.Kind+featIdx(rq.op), fmt.Sprintf("[%s] %s Limit=%d through the SDK paginator: %s %s", adapter, rq.kind, L, po.Class, po.Msg), witness(rq.op, map[string]interface{}{"limit": L}))
+					return x.r
+				case po.LastKeyEmpty:
+					x.viol("page-protocol", "sdk-paginator/"+rq.op.Kind+featIdx(rq.op), fmt.Sprintf("[%s] %s Limit=%d: the SDK paginator still has pages after %d pages (the result has %d items)", adapter, rq.kind, L, maxPages, len(U)), witness(rq.op, map[string]interface{}{"limit": L}))
+					return x.r
+				case adapt.ItemsCanon(po.Items) != adapt.ItemsCanon(U):
+					x.viol("sdk-paginator-differs", rq.op.Kind+featIdx(rq.op), fmt.Sprintf("[%s] %s Limit=%d: the SDK paginator read %d pages with %d items %s; unpaginated gave %d items %s", adapter, rq.kind, L, po.Count, len(po.Items), adapt.ItemsCanon(po.Items), len(U), adapt.ItemsCanon(U)),
+						witness(rq.op, map[string]interface{}{"limit": L}))
+					return x.r
+				}
+			}
 		}
 	}
 	// interleaved walks (no write in between): two walks of ONE request with different Limits advanced in
